@@ -107,6 +107,7 @@ type Discharger struct {
 	SolverTime float64
 	MaxTime float64
 	Disagreements []string
+	InstTimeout int
 }
 
 func (d *Discharger) Run(obls []*Obligation) {
@@ -136,6 +137,42 @@ func (d *Discharger) Run(obls []*Obligation) {
 	wg.Wait()
 }
 
+// Retry re-runs undecided obligations with little parallelism and a longer limit: an "unknown" that is only
+// a time-out under machine load must not become an alarm. A retried obligation that discharges is noted as such.
+func (d *Discharger) Retry(obls []*Obligation, factor int) int {
+	var todo []*Obligation
+	for _, o := range obls {
+		if o.Status == "unknown" && o.Kind != "cover" && !strings.HasPrefix(o.Note, "VC size") {
+			todo = append(todo, o)
+		}
+	}
+	if len(todo) == 0 {
+		return 0
+	}
+	saved := d.Timeout
+	d.Timeout = saved * factor
+	d.InstTimeout = 5 * factor
+	sem := make(chan struct{}, 3)
+	var wg sync.WaitGroup
+	for _, o := range todo {
+		wg.Add(1)
+		sem <- struct{}{}
+		go func(o *Obligation) {
+			defer wg.Done()
+			defer func() { <-sem }()
+			o.Status, o.Model = "", ""
+			d.one(o)
+			if o.Status == "discharged" {
+				o.Backend += "+retry"
+			}
+		}(o)
+	}
+	wg.Wait()
+	d.Timeout = saved
+	d.InstTimeout = 0
+	return len(todo)
+}
+
 func (d *Discharger) one(o *Obligation) {
 	d.mu.Lock()
 	if ax := boxAxioms(append(append([]*Term{}, o.Assumes...), o.Goal)); len(ax) > 0 {
@@ -158,10 +195,20 @@ func (d *Discharger) one(o *Obligation) {
 	file := filepath.Join(d.Dir, fmt.Sprintf("%x.smt2", h[:8]))
 	os.WriteFile(file, []byte(text), 0o644)
 	var cand *solveResult
+	if os.Getenv("GOWP_DEBUG_INST") != "" {
+		fmt.Fprintf(os.Stderr, "inst %s: full=%d inst=%d\n", o.Name, len(text), len(itext))
+		if len(itext) >= 400_000 {
+			os.WriteFile(fmt.Sprintf("/tmp/big-%d.smt2", len(itext)), []byte(itext), 0o644)
+		}
+	}
 	if itext != "" && len(itext) < 400_000 {
 		ifile := filepath.Join(d.Dir, fmt.Sprintf("%x.inst.smt2", h[:8]))
 		os.WriteFile(ifile, []byte(itext), 0o644)
-		ir, _ := race(ifile, 5, false)
+		it := 5
+		if d.InstTimeout > 0 {
+			it = d.InstTimeout
+		}
+		ir, _ := race(ifile, it, false)
 		d.mu.Lock()
 		d.SolverTime += ir.Time
 		d.mu.Unlock()
